@@ -348,6 +348,21 @@ theorem former_panics_are_errors :
     parseCmd [s2b "EVAL", s2b "return 1", s2b "-1"] = .error (.body (.lit .evalNegKeys)) ∧
     parseCmd [s2b "EVALSHA", s2b "abc", s2b "-9223372036854775808"] = .error (.body (.lit .evalNegKeys)) := by decide
 
+/-- repaired (fix 474b32a on /repo main): SCAN / HSCAN / ZSCAN refuse COUNT < 1 with a syntax error — at the COUNT
+    option itself, before any later word is looked at — in both RESP parsers; COUNT 1 and above are accepted, a COUNT that
+    is not an integer keeps the integer text -/
+theorem scan_count_at_least_one :
+    parseCmd [s2b "SCAN", s2b "0", s2b "COUNT", s2b "0"] = .error (.body (.lit .syntax)) ∧
+    parseCmdZc [s2b "SCAN", s2b "0", s2b "COUNT", s2b "0"] = .error (.body (.lit .syntax)) ∧
+    parseCmd [s2b "HSCAN", s2b "h", s2b "0", s2b "count", s2b "-1"] = .error (.body (.lit .syntax)) ∧
+    parseCmd [s2b "ZSCAN", s2b "z", s2b "0", s2b "COUNT", s2b "-9223372036854775808"] = .error (.body (.lit .syntax)) ∧
+    parseCmd [s2b "SCAN", s2b "0", s2b "COUNT", s2b "0", s2b "NOSUCHOPTION"] = .error (.body (.lit .syntax)) ∧
+    parseCmd [s2b "SCAN", s2b "0", s2b "COUNT", s2b "0", s2b "COUNT", s2b "5"] = .error (.body (.lit .syntax)) ∧
+    parseCmd [s2b "SCAN", s2b "0", s2b "COUNT", s2b "x"] = .error (.body (.lit .notInt)) ∧
+    parseCmd [s2b "SCAN", s2b "7", s2b "COUNT", s2b "1"] = .ok ⟨s2b "Scan", [.n 7, .none, .n 1]⟩ ∧
+    parseCmd [s2b "SCAN", s2b "7", s2b "COUNT", s2b "9223372036854775807"] = .ok ⟨s2b "Scan", [.n 7, .none, .n 9223372036854775807]⟩ := by
+  decide
+
 /-! ## 4. the redis.call translator -/
 
 /-- full statement: a frame means the same through redis.call as sent directly -/
